@@ -187,6 +187,16 @@ PROPS["C13"] = dict(
     assumptions=["liveness is decided as 'did not return although nothing it could wait for is outstanding'", "skchia is not instantiated"],
 )
 
+PROPS["C17"] = dict(
+    pkgs=["fractal"], level="exploration", death_is_violation=True,
+    quick=dict(checks=96, shards=16, timeout=900),
+    thorough=dict(checks=1600, shards=16, timeout=2400),
+    technique="property-based generation of cluster topologies and task histories run in-process (real TCP on loopback for the relay); delivery oracle on the content produced by scripted keepers; stop/remove verdicts with goroutine stacks",
+    level_text="Generated topologies (local collectors, pool + relay + collectors behind it) and task histories are run for real; oracles are content based (which keeper served which task, what arrived on which task channel, tagged with which collector) plus 'call did not return' verdicts backed by stacks. Real time (750 ms collector ticker) bounds the number of cases. Exploration; subscribe-during-broadcast interleavings are not scheduled.",
+    level_note="Trusted: scripted keeper; mass-core difficulty function (targets are chosen so low that every quality passes). No hooks are added to fractal (they would have to rewrite lines), so interleavings inside its goroutines are sampled.",
+    assumptions=["upper time bounds are never verdicts, except the real waiter's own 5 s bound for targeted reports on an otherwise idle loopback topology", "exactly-once is judged in sequenced histories only"],
+)
+
 META = dict(
     na_default="check not built yet in this session (work in progress; see DESIGN.md §4) - not a claim that the technique cannot apply",
     hooks=dict(guard="verif", enable="go test -tags verif (the driver ./check always builds with -tags verif through -overlay/-modfile, see DESIGN.md §2.2)",
